@@ -1076,11 +1076,14 @@ def recipe(kind):
         return S.class_path()
     if kind == 'inst':
         return st.one_of(S.cim_instance(depth=1, allow_nan=False),
+                         S.cim_instance(depth=1, allow_nan=False),
+                         S.cim_instance(depth=0, allow_nan=False),
                          S.cim_instance(depth=2, allow_nan=False))
     if kind == 'class':
         return _class_with_path()
     if kind == 'prop':
         return st.one_of(S.cim_property(depth=1, allow_nan=False),
+                         S.cim_property(depth=1, allow_nan=False),
                          S.cim_property(depth=2, allow_nan=False))
     if kind == 'meth':
         return S.cim_method(allow_nan=False)
@@ -1663,7 +1666,7 @@ SUBCHECKS = [
                                 'qualdecl']),
         oracle=laws_oracle, quick=(12, 1000), thorough=(16, 30000)),
     Sub('eq_objects', strategy=laws_strategy(['inst', 'class']),
-        oracle=laws_oracle, quick=(12, 550), thorough=(16, 15000)),
+        oracle=laws_oracle, quick=(12, 500), thorough=(16, 15000)),
     Sub('eq_misc', strategy=laws_strategy(['datetime', 'ncd']),
         oracle=laws_oracle, quick=(4, 1200), thorough=(8, 30000)),
     Sub('copies', strategy=copies_strategy, oracle=copies_oracle,
